@@ -25,6 +25,9 @@ def rand_grid(rng, n, kind=None):
         g = np.linspace(0, 1, n)
     elif kind == 'exponential':
         g = Numerics.exponential_grid(n, crwd=rng.choice([2., 8., 20.]))
+    elif kind == 'crowded':
+        # first / last interior point within 1e-9 .. 1e-11 of the boundary (as exponential_grid with a large crowding gives)
+        g = Numerics.exponential_grid(n, crwd=rng.choice([1.05, 1.15, 1.25]) * 20.0 / (1.0 - 2.0 / (n - 1)))
     elif kind == 'quadratic' and n >= 4:
         if n >= 20:
             g = Numerics.quadratic_grid(n)
